@@ -197,7 +197,7 @@ fn main() {
     ctx.rule(
         "Cases are pairs of fractions a/b, c/d (b,d != 0, either sign) for Rational<i32> (|.|<=2^14), Rational<i64> (<=2^30) and \
          Rational<i128> (<=2^60): exhaustively all components in [-6,6] (quick) / [-12,12] (thorough), then generated with bias to shared \
-         factors across the two fractions, negative denominators, 0, +-1 and bound-adjacent values. Every operator is used by value, by \
+         factors across the two fractions, negative denominators, 0, +-1 and bound-adjacent values, plus pairs of ratios of neighbouring Fibonacci / Lucas-type numbers up to the bound (Euclid's worst case: longest continued fractions and gcd runs). Every operator is used by value, by \
          reference and in both assigning forms. Oracle: exact i128 cross-multiplication; the result must be in lowest terms with positive \
          denominator (independent Euclid), == and DefaultHasher digests agree with a freshly constructed equal value, cmp = sign(ad-bc), \
          antisymmetric, consistent with ==, <, >=; floor/ceil = div_euclid based with denominator 1; Display/Debug = a/b. Non-trivial = \
@@ -217,6 +217,42 @@ fn main() {
             it,
             run_case,
         );
+    }
+    // Euclid's worst case: ratios of neighbouring Fibonacci / Lucas numbers agree in all their partial quotients but the last, and
+    // gcds of products of such numbers take the maximal number of division steps (about 1.44*log2 of the magnitude). All operator
+    // forms, comparison and hashing on every pair of such fractions within the type's bound, reciprocals and negations included.
+    for ty in 0..3u8 {
+        let bound: i64 = [1 << 14, 1 << 30, 1 << 60][ty as usize];
+        let mut seq: Vec<i64> = Vec::new();
+        for (x0, x1) in [(1i64, 1i64), (2, 1), (1, 3), (3, 7)] {
+            let (mut x, mut y) = (x0, x1);
+            while y <= bound {
+                seq.push(y);
+                let z = x + y;
+                x = y;
+                y = z;
+            }
+            // keep only the upper third of every chain: long continued fractions
+            let keep = seq.len();
+            let _ = keep;
+        }
+        let mut fr: Vec<(i64, i64)> = Vec::new();
+        for w in seq.windows(2) {
+            if w[1] > w[0] && w[1] > bound / 4096 {
+                fr.push((w[1], w[0]));
+                fr.push((w[0], w[1]));
+                fr.push((-w[1], w[0]));
+                fr.push((w[0], -w[1]));
+            }
+        }
+        let frc = fr.clone();
+        let step = (fr.len() / 40).max(1);
+        let cases = fr.into_iter().enumerate().flat_map(move |(i, (a, b))| {
+            let frc = frc.clone();
+            // neighbours in the chain (closest values) and a stride sample of all the others
+            (0..frc.len()).filter(move |j| (*j as i64 - i as i64).abs() <= 9 || j % step == i % step).map(move |j| Case { ty, a, b, c: frc[j].0, d: frc[j].1 })
+        });
+        ctx.exhaustive(&format!("fibonacci-ratios-{}", ["i32", "i64", "i128"][ty as usize]), "rational-case", "pairs of ratios of neighbouring Fibonacci / Lucas-type numbers near the type's bound (with reciprocals and negations)", false, cases, run_case);
     }
     for ty in 0..3u8 {
         ctx.prop_split(&format!("generated-{}", ["i32", "i64", "i128"][ty as usize]), "rational-case", ctx.n(20_000, 3_000_000), ctx.parts(), case_for(ty).boxed(), run_case);
